@@ -275,17 +275,25 @@ Theorem C24_git_store_keeps_exactly_the_commits : forall cs d d' kv,
 Proof. exact git_store_entries. Qed.
 Print Assumptions C24_git_store_keeps_exactly_the_commits.
 
-(* C24-memorytags-merge-ignores-master: with a MemoryTags source the master of a bound destination
-   is never updated ("master updated too" is FALSE of MemoryTags.merge_to) *)
-Theorem C24_memorytags_master_updated_refuted :
+(* MemoryTags.merge_to (repaired by commit b75814f, finding C24-memorytags-merge-ignores-master):
+   a bound destination and its master each receive reconcile(source, own dict) *)
+Theorem C24_memorytags_bound_child_and_master_both_reconciled : forall src dst m ov sel,
+  fst (fst (fst (merge_memsrc src dst (Some m) false ov sel))) = res bytes bytes (reconcileB src dst ov sel)
+  /\ snd (fst (fst (merge_memsrc src dst (Some m) false ov sel))) = Some (res bytes bytes (reconcileB src m ov sel)).
+Proof. intros. split; [apply merge_memsrc_child|apply merge_memsrc_master]. Qed.
+Print Assumptions C24_memorytags_bound_child_and_master_both_reconciled.
+
+Theorem C24_memorytags_ignore_master_leaves_master : forall src dst master ov sel,
+  snd (fst (fst (merge_memsrc src dst master true ov sel))) = master.
+Proof. exact merge_memsrc_master_ignored. Qed.
+Print Assumptions C24_memorytags_ignore_master_leaves_master.
+
+(* the OLD behaviour (before b75814f), kept as a regression statement about merge_memsrc_old only:
+   the tag reached the bound branch but its master was left as it was *)
+Theorem C24_old_memorytags_master_updated_refuted :
   exists (src dst m : tagdict) (n v : bytes),
     dict_get bytes_eqb src n = Some v /\ dict_get bytes_eqb m n = None /\
-    dict_get bytes_eqb (fst (fst (fst (merge_memsrc src dst (Some m) false None)))) n = Some v /\
-    snd (fst (fst (merge_memsrc src dst (Some m) false None))) = Some m.
+    dict_get bytes_eqb (fst (fst (fst (merge_memsrc_old src dst (Some m) false None)))) n = Some v /\
+    snd (fst (fst (merge_memsrc_old src dst (Some m) false None))) = Some m.
 Proof. exists [([118], [49])]%N, [], [], [118]%N, [49]%N. repeat split; reflexivity. Qed.
-Print Assumptions C24_memorytags_master_updated_refuted.
-
-Theorem C24_memorytags_master_untouched : forall src dst master ov sel,
-  snd (fst (fst (merge_memsrc src dst master ov sel))) = master.
-Proof. exact merge_memsrc_master_untouched. Qed.
-Print Assumptions C24_memorytags_master_untouched.
+Print Assumptions C24_old_memorytags_master_updated_refuted.
